@@ -13,6 +13,7 @@ RULES = [
     ("r6", "44444444-4444-4444-8444-444444444444", "Title D", {"sel": {"EventID": 1, "Image|endswith": "\\a.exe"}, "condition": "sel"}, {"product": "windows", "service": "sysmon"}),
     ("r7", "55555555-5555-4555-8555-555555555555", "Title E", {"sel": {"EventID": [7, 11, 4688]}, "condition": "sel"}, {"product": "windows", "service": "system"}),
     ("r8", "66666666-6666-4666-8666-666666666666", "Title F", {"sel": {"EventID": 4688}, "condition": "sel"}, {"product": "windows", "service": "security"}),
+    ("r9", "77777777-7777-4777-8777-777777777777", "Title G", {"sel": {"f": "g"}, "condition": ["1 of nomatch2*", "sel", "all of nope*"]}),
 ]
 PIPELINE = {"name": "p", "priority": 10, "transformations": [{"id": "ac", "type": "add_condition", "conditions": {"idx": "main"}}, {"id": "fm", "type": "field_name_mapping", "mapping": {"f": "F"}}]}
 
@@ -91,7 +92,8 @@ class C19Bounded(Bounded):
                     diff = [k for k in keys if k not in baseline] + [k for k in baseline if k not in keys]
                     fail("order", f"the set of issues depends on rule / validator order: rule order {[RULES[i][0] for i in perm]}; differing issues {diff[:3]}", [list(perm)])
         # exactness of the reference checks on the known rule set
-        exp = {("DanglingDetectionIssue", ("r1",), "unused"), ("DanglingDetectionIssue", ("r2",), "_helper"), ("DanglingConditionIssue", ("r3",), "nomatch*"), ("DanglingConditionIssue", ("r4",), "_*")}
+        exp = {("DanglingDetectionIssue", ("r1",), "unused"), ("DanglingDetectionIssue", ("r2",), "_helper"), ("DanglingConditionIssue", ("r3",), "nomatch*"), ("DanglingConditionIssue", ("r4",), "_*"),
+               ("DanglingConditionIssue", ("r9",), "nomatch2*"), ("DanglingConditionIssue", ("r9",), "nope*")}
         got = set()
         for k in baseline or []:
             if k[0] in ("DanglingDetectionIssue", "DanglingConditionIssue"):
